@@ -9,7 +9,7 @@
    code as it is now, [false] the pinned commit), every initial cursor, and every schedule whose clients obey the interface
    contract [wf_choice] (free only a slot you hold, unlock only what you locked). *)
 From Coq Require Import NArith ZArith List Bool Arith Permutation.
-From CMI Require Import Cxx.C08_Defs Cxx.C08_Proofs.
+From CMI Require Import Cxx.C08_Defs Cxx.C08_Proofs Cxx.C08_QProofs.
 Import ListNotations.
 
 (* [reach] is exactly: reachable from the initial state by a list of (thread, client choice)
@@ -236,3 +236,148 @@ Theorem C08_same_lock_twice_never_returned_pinned : forall cfg s t c o k l, reac
   e_ret (snd (step cfg s t c)) <> Some (o, RTask (Some k)).
 Proof. exact same_lock_twice_never_returned_pinned. Qed.
 Print Assumptions C08_same_lock_twice_never_returned_pinned.
+
+(* ---- the quiescent (non-thread-safe) pool operations: clear, clear_after, get_free_elements ---- *)
+(* [reachq cfg s]: reachable by any interleaving of atomic steps of the threads AND, at any moment at
+   which no thread has a pool operation in flight ([pool_quiet]; the calls are made by the master thread
+   outside the parallel regions), calls of clear() / clear_after(off) / get_free_elements(n) that respect
+   the contract of these methods [qpre]: clear_after(off): off <= _size and every slot below off is held
+   ("We assume all values before the given offset are in use" - what _number_taken.set(offset) relies on);
+   get_free_elements(n): empty pool, n <= _size.  Handles from off onwards are dropped by their holders.
+   All statements: any number of threads, any pool size > 0, any schedule, cursor anywhere. *)
+
+Theorem C08_q_all_schedules : forall cfg s, reachable_q cfg s <-> reachq cfg s.
+Proof. exact reachable_q_reachq. Qed.
+Print Assumptions C08_q_all_schedules.
+
+Theorem C08_q_contract_decided : forall cfg s q, qpre_b cfg s q = true <-> qpre cfg s q.
+Proof. exact qpre_b_spec. Qed.
+Print Assumptions C08_q_contract_decided.
+
+Theorem C08_q_extends : forall cfg s, reach cfg s -> reachq cfg s.
+Proof. exact reach_reachq. Qed.
+Print Assumptions C08_q_extends.
+
+(* the pool theorems again, now with the quiescent operations anywhere in the history
+   (C08_released_becomes_available has no reachability hypothesis and applies as it stands) *)
+Theorem C08_q_slot_exclusive : forall cfg s, 0 < psize cfg -> reachq cfg s ->
+  forall t1 t2 i, t1 <> t2 -> holds s t1 i -> ~ holds s t2 i.
+Proof. exact q_slot_exclusive. Qed.
+Print Assumptions C08_q_slot_exclusive.
+
+Theorem C08_q_slot_exclusive_inflight : forall cfg s, 0 < psize cfg -> reachq cfg s ->
+  forall t1 t2 i, t1 <> t2 -> ownsT (thr s t1) i -> ~ ownsT (thr s t2) i.
+Proof. exact q_slot_exclusive_inflight. Qed.
+Print Assumptions C08_q_slot_exclusive_inflight.
+
+Theorem C08_q_slot_held_once : forall cfg s, 0 < psize cfg -> reachq cfg s -> forall t, NoDup (held (thr s t)).
+Proof. exact q_held_once. Qed.
+Print Assumptions C08_q_slot_held_once.
+
+Theorem C08_q_flag_iff_owned : forall cfg s, 0 < psize cfg -> reachq cfg s ->
+  forall i, is_some (flags s i) = true <-> exists t, ownsT (thr s t) i.
+Proof. exact q_flag_iff_owned. Qed.
+Print Assumptions C08_q_flag_iff_owned.
+
+Theorem C08_q_occupancy_exact_when_quiescent : forall cfg s,
+  0 < psize cfg -> (N.of_nat (psize cfg) < WORD)%N -> reachq cfg s -> quiescent cfg s ->
+  N.to_nat (taken s) = count_held cfg s /\ count_held cfg s = count_flags cfg s.
+Proof. exact q_occupancy_exact_when_quiescent. Qed.
+Print Assumptions C08_q_occupancy_exact_when_quiescent.
+
+(* it suffices that no POOL operation is in flight (threads may be inside lock or queue operations) *)
+Theorem C08_q_occupancy_exact_when_pool_quiet : forall cfg s,
+  0 < psize cfg -> (N.of_nat (psize cfg) < WORD)%N -> reachq cfg s -> pool_quiet cfg s ->
+  N.to_nat (taken s) = count_held cfg s /\ count_held cfg s = count_flags cfg s.
+Proof. exact q_occupancy_exact_when_pool_quiet. Qed.
+Print Assumptions C08_q_occupancy_exact_when_pool_quiet.
+
+Theorem C08_q_occupancy_inflight_bound : forall cfg s,
+  0 < psize cfg -> reachq cfg s ->
+  exists d, (0 <= d <= Z.of_nat (inflight cfg s))%Z /\
+            Z.of_N (taken s) = ((Z.of_nat (count_held cfg s) + d) mod WZ)%Z.
+Proof. exact q_occupancy_inflight_bound. Qed.
+Print Assumptions C08_q_occupancy_inflight_bound.
+
+Theorem C08_q_get_succeeds_when_quiescent : forall cfg s t i,
+  reachq cfg s -> quiescent cfg s -> t < nthr cfg ->
+  0 < psize cfg -> (N.of_nat (psize cfg) < WORD)%N -> (cur0 cfg < WORD)%N ->
+  i < psize cfg -> flags s i = None ->
+  exists k, acquired (solo cfg t k s) t.
+Proof. exact q_get_succeeds_when_quiescent. Qed.
+Print Assumptions C08_q_get_succeeds_when_quiescent.
+
+(* a get_free_element_safe on a quiescent pool obtains a slot IFF a slot is free: if none is, it is
+   refused (returns _size) however often it is repeated - it does not spin *)
+Theorem C08_q_get_succeeds_iff_free : forall cfg s t,
+  reachq cfg s -> quiescent cfg s -> t < nthr cfg ->
+  0 < psize cfg -> (N.of_nat (psize cfg) < WORD)%N -> (cur0 cfg < WORD)%N ->
+  ((exists i, i < psize cfg /\ flags s i = None) <-> exists k, acquired (solo cfg t k s) t).
+Proof. exact q_get_succeeds_iff_free. Qed.
+Print Assumptions C08_q_get_succeeds_iff_free.
+
+(* what clear_after(off) establishes, from ANY reachable state without a pool operation in flight - the
+   cursor anywhere: pool filled to its last slot (cursor = _size), cursor gone around the pool, wrapped
+   at 2^64 -: the flags set are exactly the slots below off that were held, with the same holders; every
+   slot from off onwards is free and in nobody's view; occupancy counter = slots held = flags set = off;
+   cursor = off; no program counter changes; and from a quiescent state a following
+   get_free_element_safe obtains a slot iff a slot is free *)
+Theorem C08_clear_after_establishes : forall cfg s off,
+  0 < psize cfg -> (N.of_nat (psize cfg) < WORD)%N -> reachq cfg s -> qpre cfg s (QClearAfter off) ->
+  let s' := qexec cfg s (QClearAfter off) in
+  (forall i t, flags s' i = Some t <-> i < off /\ holds s t i) /\
+  (forall i, is_some (flags s' i) = true <-> i < off) /\
+  (forall i, off <= i -> flags s' i = None /\ forall t, ~ holds s' t i) /\
+  (forall t i, holds s' t i <-> holds s t i /\ i < off) /\
+  (N.to_nat (taken s') = off /\ count_held cfg s' = off /\ count_flags cfg s' = off) /\
+  cursor s' = N.of_nat off /\
+  (forall t, tpc (thr s' t) = tpc (thr s t)) /\
+  (quiescent cfg s -> quiescent cfg s' /\ forall t, t < nthr cfg ->
+     ((exists i, i < psize cfg /\ flags s' i = None) <-> exists k, acquired (solo cfg t k s') t)) /\
+  reachq cfg s'.
+Proof. exact clear_after_establishes. Qed.
+Print Assumptions C08_clear_after_establishes.
+
+(* the contract is necessary: with a free slot below off the counter no longer equals the slots held *)
+Theorem C08_clear_after_contract_necessary : exists cfg s off,
+  reach cfg s /\ quiescent cfg s /\ off <= psize cfg /\
+  N.to_nat (taken (qexec cfg s (QClearAfter off))) <> count_held cfg (qexec cfg s (QClearAfter off)).
+Proof. exact clear_after_needs_block_held. Qed.
+Print Assumptions C08_clear_after_contract_necessary.
+
+(* the contract at the call site: the block below off stays held as long as no thread is about to free
+   one of its slots (hydro tasks are never freed), also across clear_after with an offset >= off *)
+Theorem C08_permanent_block_stays_held : forall cfg s t c off,
+  (forall i, i < off -> flags s i <> None) ->
+  (forall i, i < off -> tpc (thr s t) <> F_cas i) ->
+  forall i, i < off -> flags (fst (step cfg s t c)) i <> None.
+Proof. exact permanent_block_step. Qed.
+Print Assumptions C08_permanent_block_stays_held.
+
+Theorem C08_permanent_block_survives_clear_after : forall cfg s off off',
+  (forall i, i < off -> flags s i <> None) -> off <= off' ->
+  forall i, i < off -> flags (qexec cfg s (QClearAfter off')) i <> None.
+Proof. exact permanent_block_qexec. Qed.
+Print Assumptions C08_permanent_block_survives_clear_after.
+
+(* clear(): the pool is as new *)
+Theorem C08_clear_establishes : forall cfg s,
+  0 < psize cfg -> reachq cfg s -> pool_quiet cfg s ->
+  let s' := qexec cfg s QClear in
+  (forall i, flags s' i = None) /\ (forall t, held (thr s' t) = []) /\
+  taken s' = 0%N /\ cursor s' = 0%N /\ maxtaken s' = 0%N /\ total s' = 0%N /\
+  count_held cfg s' = 0 /\ count_flags cfg s' = 0 /\
+  (forall t, tpc (thr s' t) = tpc (thr s t)) /\ reachq cfg s'.
+Proof. exact clear_establishes. Qed.
+Print Assumptions C08_clear_establishes.
+
+(* get_free_elements(n) on an empty pool: the caller holds exactly the block 0 .. n-1 *)
+Theorem C08_get_free_elements_establishes : forall cfg s t n,
+  0 < psize cfg -> (N.of_nat (psize cfg) < WORD)%N -> reachq cfg s -> qpre cfg s (QGetN t n) ->
+  let s' := qexec cfg s (QGetN t n) in
+  (forall i t', flags s' i = Some t' <-> i < n /\ t' = t) /\
+  (forall i, holds s' t i <-> i < n) /\ (forall t' i, t' <> t -> ~ holds s' t' i) /\
+  (N.to_nat (taken s') = n /\ count_held cfg s' = n /\ count_flags cfg s' = n) /\
+  cursor s' = N.of_nat n /\ reachq cfg s'.
+Proof. exact get_free_elements_establishes. Qed.
+Print Assumptions C08_get_free_elements_establishes.
